@@ -45,6 +45,7 @@ Field instance:
 
 
 """
+import copy
 import logging
 from typing import Callable, Optional
 
@@ -152,6 +153,11 @@ class MetaStruct(type):
         for aname, field in data.items():
             if hasattr(field, "_inspect_args"):
                 data[aname] = Field(field)
+            elif isinstance(field, Field) and field.index is not None:
+                # the Field object already describes a field of another
+                # struct class (a fields dictionary used again for a derived
+                # class): this class gets a Field object of its own
+                data[aname] = copy.copy(field)
         for aname, field in data.items():
             if isinstance(field, Field):
                 field.index = findex
